@@ -221,18 +221,18 @@ FnCover ==
    convertsToBoolean |-> "(%x mod 3).toString().convertsToBoolean()",
    toInteger |-> "%x.toString().toInteger()",
    convertsToInteger |-> SX \o ".convertsToInteger()",
-   toDate |-> "('20' & (10 + (%x mod 80)).toString() & '-01-01').toDate()",
-   convertsToDate |-> "('20' & (10 + (%x mod 80)).toString() & '-01-01').convertsToDate()",
-   toDateTime |-> "('20' & (10 + (%x mod 80)).toString() & '-01-01T10:00:00Z').toDateTime()",
-   convertsToDateTime |-> "('20' & (10 + (%x mod 80)).toString() & '-01-01T10:00:00Z').convertsToDateTime()",
+   toDate |-> "((1000 + (%x mod 8000)).toString() & '-01-01').toDate()",
+   convertsToDate |-> "((1000 + (%x mod 8000)).toString() & '-01-01').convertsToDate()",
+   toDateTime |-> "((1000 + (%x mod 8000)).toString() & '-01-01T10:00:00Z').toDateTime()",
+   convertsToDateTime |-> "((1000 + (%x mod 8000)).toString() & '-01-01T10:00:00Z').convertsToDateTime()",
    toDecimal |-> "(%x.toString() & '.5').toDecimal()",
    convertsToDecimal |-> "(%x.toString() & '.5').convertsToDecimal()",
    toQuantity |-> "%x.toString().toQuantity()",
    convertsToQuantity |-> "%x.toString().convertsToQuantity()",
    toString |-> "(%x / 8).toString()",
    convertsToString |-> SX \o ".convertsToString()",
-   toTime |-> "('10:' & (10 + (%x mod 50)).toString() & ':00').toTime()",
-   convertsToTime |-> "('10:' & (10 + (%x mod 50)).toString() & ':00').convertsToTime()",
+   toTime |-> "('10:' & (10 + (%x mod 50)).toString() & ':' & (10 + ((%x div 50) mod 50)).toString()).toTime()",
+   convertsToTime |-> "('10:' & (10 + (%x mod 50)).toString() & ':' & (10 + ((%x div 50) mod 50)).toString()).convertsToTime()",
    indexOf |-> SX \o ".indexOf((%x mod 10).toString())",
    substring |-> SX \o ".substring(1, 1 + (%x mod 3))",
    startsWith |-> SX \o ".startsWith('v' & (%x mod 10).toString())",
